@@ -35,9 +35,39 @@ CLAIMED = {
     "C18": ("exploration", "seeded deterministic simulation: real Server with 1-3 mixed listeners and 0-5 real clients plus failing raw clients; Server.Close at any simulated instant and scheduling point; callback/ordering/census oracles; goroutine panics of lime code are violations",
             "No lime goroutine panics; ListenAndServe returns ErrServerClosed; no listener accepts afterwards; every established client observes finished; Established exactly once and only for established sessions, before any handler; Finished exactly once afterwards for the same set; no serving task left 30 s later.",
             "select poll order at the queue selects is a tape decision, so 'both arms ready' is explored on purpose"),
+    "C02": ("exploration", "seeded deterministic simulation: hostile bytes as a peer/link fault (structurally mutated valid encodings at any nesting level, truncation, bit flips, glued frames, inserted bytes) delivered under random fragmentation to real TCP/websocket transports and to established sessions of a real Server and a real ClientChannel; goroutine panics of lime code are violations",
+            "No lime goroutine may panic (the decoder runs on unrecovered receiver goroutines, so a panic is a process crash); every accepted envelope re-encodes, decodes again and re-encodes to the same bytes; after hostile input on one session a fresh client can still establish. Byte-level coverage-guided fuzzing of the typed decoders is a pure-input technique and is not claimed.",
+            "mutations are drawn from a seeded generator over the rich envelope generator and session templates; depth of byte-level exploration is that of random mutation, not of a coverage-guided fuzzer"),
+    "C05": ("exploration", "seeded deterministic simulation: concurrent ProcessCommand callers with colliding ids and deadlines vs a scripted responder (now/late/never/twice/reordered/other-id/unsolicited), every request and response tagged; interval reasoning over the recorded history stamped with scheduler step numbers",
+            "A call returns only its own id's response, or its context's error only after the context ended, or 'in use' only with an overlapping same-id call; each response is consumed at most once; unmatched responses surface on the stream; a timely answer to a call without competitors is returned by it. porcupine was considered and not used (one long blocking call, not invoke/return pairs on a shared object).",
+            "response delays are allowed to coincide exactly with context deadlines (that is how the id-reuse race was found)"),
+    "C06": ("exploration", "seeded deterministic simulation: application tasks calling the send operations from before the handshake until after the end, on a real ServerChannel vs scripted client and a real ClientChannel vs scripted server; wire-order oracle on the peer's frames plus before/after state observation per call",
+            "A send whose whole call lay outside the established state fails and emits nothing; data frames appear on the wire only between the established envelope and the endpoint's terminal session envelope; no garbled frame; a data envelope injected into the handshake aborts it and is never delivered; after the server's terminal envelope has had time to arrive client sends fail.",
+            "state is observed through State() immediately before and after each call; only calls whose whole duration is outside 'established' are judged strictly"),
+    "C08": ("exploration", "seeded deterministic simulation: real ClientChannel.EstablishSession against scripted servers answering one step per client envelope (any state incl. regressions, id variants, option/scheme lists, round trips, data, garbage, half frames, FIN/RST, silence) and unsolicited frames after establishment; goroutine panics are violations",
+            "EstablishSession returns; an established report only when the server's last session envelope was 'established', with exactly its id/to/from; every later client envelope echoes the latest server id; credentials only after an authentication request; the client closes after a consumed finished/failed.",
+            "selectors and authenticators used by the harness always return normally (the stock default selector that indexes an empty list is outside the property's premise)"),
+    "C09": ("exploration", "seeded deterministic simulation: one real server with mixed listeners, several clients one after another (real ClientChannel with each selector, cooperative and non-cooperative scripted clients), fragmentation in both directions around the confirmation / TLS hello boundary; wire taps parsed into JSON frames + TLS remainder",
+            "Offer = configured intersect supported (as sets); confirmation only of a pair from the offer, anything else failed and never established; after a TLS confirmation only TLS records in either direction and no readable session data; the confirmed upgrade completes under benign faults.",
+            "for ws/wss/in-process the frames are those a scripted client sees; 'supported' is taken from the protocol facts per transport kind (a plain TCP listener advertises tls: both readings accepted)"),
+    "C13": ("exploration", "seeded deterministic simulation: established sessions over every transport ended by client FinishSession / server FinishSession / server FailSession / Client.Close / Server.Close at a chosen instant with traffic in flight and slow consumers; bounded-liveness and task-census oracles",
+            "The terminating call returns and disconnects the initiator; the peer reaches the terminal state; receiver-done and streams close and consumers return within 30 s; Finished fires once; after both sides closed no session goroutine (by spawn site) and no open connection end (incl. earlier failed attempts) remains; no panic.",
+            "census exemptions: listener-level goroutines of a still running server are not session goroutines"),
+    "C14": ("exploration", "seeded deterministic simulation: full ServerBuilder server vs 1-4 concurrent scripted clients (cooperative, vanishing by FIN/RST at a step or exactly inside the authenticate/register callback, random handshake words), callback errors; release oracle per connection + session-goroutine census",
+            "A connection that did not establish (client never saw 'established' and the established envelope never reached the socket) is closed by the server within 90 s of the client's last complete input, fires no callback, has its server end closed, and leaves no session goroutine.",
+            "a client that is silent, or whose last bytes are an incomplete JSON value, is legitimately waited for"),
+    "C17": ("exploration", "seeded deterministic simulation: one server with mixed listeners and 2-6 concurrent real clients, tagged traffic, handlers recording the context's session id / nodes and replying through the Sender they were handed",
+            "Handler context values equal those of the session the envelope was sent on; replies reach the originating client and nobody else; announced ids pairwise distinct and known to the server; on a fault-free network every client is served.",
+            "sessions are identified by the id announced to the client and the node returned by the register callback"),
+    "C19": ("exploration", "seeded deterministic simulation: real high-level Client (listener goroutine, reconnect loop, back-off on the fake clock) vs real Server; 1-3 rounds of unrequested loss (server finish/fail/close, FIN, RST, half-close, undecodable bytes, non-envelope JSON, oversized envelope, server restart) at idle / mid-send / mid-push / mid-re-establishment; bounded-liveness oracle after faults stop; busy loops detected from scheduler statistics",
+            "Once faults stop a SendMessage succeeds within 120 s on a session the server serves; a message pushed on the client's current session reaches the registered handler; a send 1 s or more after the loss that returns nil was received; no busy loop (tens of thousands of scheduler steps at one simulated instant); no panic.",
+            "sends racing with the loss itself may be accepted by a socket whose peer is gone; only later probes are judged"),
+    "C20": ("exploration", "seeded deterministic simulation: per-run generated handler tables (0-4 handlers per kind, predicate family, error at k-th call) on the server or on a client-side EnvelopeMux, inbound envelopes of all four kinds through the real receiver/stream/select pipeline",
+            "Exactly one invocation, of the earliest-registered matching handler, envelope unaltered; none when nothing matches and later envelopes still dispatched; nothing after a handler error; the server then finishes the session / ListenClient returns the error.",
+            "predicates and handlers are harness functions; the dispatch itself is real"),
 }
 
-TODO = ["C02", "C04", "C05", "C06", "C08", "C09", "C10", "C13", "C14", "C15", "C17", "C18", "C19", "C20"]
+TODO = []
 
 
 def main():
